@@ -239,6 +239,13 @@ def std_pool(task, seed, acc=None):
         seed_hist = dup_hist(task['layout'], text, seed)
     elif task['layout'] in ('rs1', 'rs2'):
         seed_hist = restart_hist(task['layout'], text, seed)
+    elif task['layout'] == 'esc':
+        # a base text that itself contains a complete SGR sequence (assign_str takes its text verbatim) and one that a
+        # concatenation completes: characters of the text, never to be parsed again
+        seed_hist = [['plain', text + 'zzzzz'], ['apply', roles(seed)['R'], 0, len(text) + 3, True],
+                     ['assign', text[:1] + '\x1b[1m' + text[1:]]]
+    elif task['layout'] == 'esc2':
+        seed_hist = [['parse', text[:1] + '\x1b[4'], ['apply', roles(seed)['R'], 0, 2, True], ['icat', ['lit', 'm' + text[1:]]]]
     elif task['layout'] == 'wide':
         seed_hist = [['rainbow', text]]
     elif task['layout'] == 'wide2':
